@@ -3,8 +3,12 @@
 Values are carried in a JSON-able tagged encoding (so that None / int / float dict keys survive a replay):
   ['N'] None | ['I', n] int | ['F', num, den] float (exact rational) | ['S', s] str
   ['L', [items], flavor]  flavor in list|tuple|ndarray | ['D', [[key, value], ...]] dict in insertion order
+Shapes for which "has __iter__", "iter() works" and "is a list" disagree (oracle side; modelled by the scalar / list they stand for):
+  ['Z', num] 0-d ndarray np.array(num) | ['Y', num] NumPy scalar np.int64 / np.float64 | ['T', name] a class object (list, dict ...)
+  ['O', kind] an opaque object: 'object' = object(), 'noiter' = instance of a class with __iter__ = None
+  further 'L' flavors: legacy (only __getitem__/__len__) | range | deque | set | frozenset | iter (list iterator) | gen (generator)
 """
-import copy, itertools, math, re
+import collections, copy, itertools, math, re
 from fractions import Fraction
 import numpy as np
 from vlib import *
@@ -23,8 +27,31 @@ def eL(items, flavor='list'): return ['L', list(items), flavor]
 def eD(pairs): return ['D', [[k, v] for k, v in pairs]]
 
 
+class LegacySeq:
+    """a sequence implemented only with __getitem__/__len__ (no __iter__): iter(), for, list() all work on it"""
+    def __init__(self, data): self._d = list(data)
+    def __len__(self): return len(self._d)
+    def __getitem__(self, i): return self._d[i]
+    def __eq__(self, o): return type(o) is LegacySeq and self._d == o._d
+    def __repr__(self): return 'LegacySeq(%r)' % (self._d,)
+
+
+class NoIter:
+    """declares itself non-iterable the way the data model documents (__iter__ = None): hasattr(x, '__iter__') holds, iter(x) raises TypeError"""
+    __iter__ = None
+    def __repr__(self): return 'NoIter()'
+
+
+CLASS_OBJECTS = {'list': list, 'dict': dict, 'tuple': tuple, 'set': set, 'str': str, 'int': int, 'ndarray': np.ndarray, 'LegacySeq': LegacySeq}
+SEQ_FLAVORS = ('legacy', 'range', 'deque')              # have len() and [i]: admissible "lists" for the node normalisers
+
+
 def to_py(e):
     t = e[0]
+    if t == 'Z': return np.array(to_py(e[1]))
+    if t == 'Y': return np.int64(e[1][1]) if e[1][0] == 'I' else np.float64(to_py(e[1]))
+    if t == 'T': return CLASS_OBJECTS[e[1]]
+    if t == 'O': return NoIter() if e[1] == 'noiter' else object()
     if t == 'N': return None
     if t == 'I': return int(e[1])
     if t == 'F': return float(Fraction(e[1], e[2]))
@@ -34,6 +61,13 @@ def to_py(e):
         fl = e[2] if len(e) > 2 else 'list'
         if fl == 'tuple': return tuple(items)
         if fl == 'ndarray': return np.array(items)
+        if fl == 'legacy': return LegacySeq(items)
+        if fl == 'range': return range(items[0], items[-1] + 1) if items else range(0)
+        if fl == 'deque': return collections.deque(items)
+        if fl == 'set': return set(items)
+        if fl == 'frozenset': return frozenset(items)
+        if fl == 'iter': return iter(items)
+        if fl == 'gen': return (v for v in items)
         return items
     if t == 'D': return {to_py(k): to_py(v) for k, v in e[1]}
     raise ValueError(e)
@@ -49,14 +83,17 @@ def canon(x):
         return eF(float(x))
     if isinstance(x, Fraction): return eF(x)
     if isinstance(x, str): return ['S', str(x)]
-    if isinstance(x, (list, tuple)): return ['L', [canon(v) for v in x]]
+    if isinstance(x, (list, tuple, range, collections.deque)): return ['L', [canon(v) for v in x]]
+    if isinstance(x, LegacySeq): return ['L', [canon(v) for v in x._d]]
+    if isinstance(x, (set, frozenset)): return ['U', sorted((canon(v) for v in x), key=json.dumps)]       # unordered
     if isinstance(x, np.ndarray): return ['L', [canon(v) for v in x]] if x.ndim else canon(x.item())
     if isinstance(x, dict): return ['D', [[canon(k), canon(v)] for k, v in x.items()]]
     return ['?', repr(x)]
 
 
 def strip(e):
-    """drop list flavors from an input encoding so that it can be compared with canon()"""
+    """drop list flavors from an input encoding so that it can be compared with canon() (a 0-d ndarray / NumPy scalar is the number it holds)"""
+    if e[0] in 'ZY': return strip(e[1])
     if e[0] == 'L': return ['L', [strip(x) for x in e[1]]]
     if e[0] == 'D': return ['D', [[strip(k), strip(v)] for k, v in e[1]]]
     if e[0] == 'F':
@@ -87,6 +124,7 @@ def coq_key(e):
 
 def coq_pv(e):
     t = e[0]
+    if t in 'ZY': return coq_pv(e[1])       # modelled by the number it holds (a singleton)
     if t == 'N': return 'PNone'
     if t == 'I': return '(PInt %s)' % cz(e[1])
     if t == 'F': return '(PNum %s)' % cq(Fraction(e[1], e[2]))
@@ -133,8 +171,18 @@ def same(a, b):
     return canon(a) == canon(b) and type(a) is type(b)
 
 
+def has_tag(e, tags, flavors=()):
+    """does the encoding contain one of the tags / list flavors anywhere"""
+    if e[0] in tags: return True
+    if e[0] == 'L': return (len(e) > 2 and e[2] in flavors) or any(has_tag(x, tags, flavors) for x in e[1])
+    if e[0] == 'D': return any(has_tag(k, tags, flavors) or has_tag(v, tags, flavors) for k, v in e[1])
+    if e[0] in 'ZY': return has_tag(e[1], tags, flavors)
+    return False
+
+
 def fr(e):
     """numeric encoding -> Fraction"""
+    if e[0] in 'ZY': e = e[1]
     return Fraction(e[1], e[2]) if e[0] == 'F' else Fraction(e[1])
 
 
@@ -181,6 +229,21 @@ def g_dict(rng, n, kinds='is', none=0.15, val=None):
         if key_id(k) in seen: continue
         seen.add(key_id(k)); pairs.append([k, val(rng)])
     return ['D', pairs]
+
+
+def shape_name(e):
+    return {'N': 'None', 'I': 'int', 'F': 'float', 'S': 'str', 'B': 'bool', 'D': 'dict', 'Z': '0-d-ndarray', 'Y': 'numpy-scalar', 'T': 'class-object', 'O': 'opaque-object',
+            'L': (e[2] if len(e) > 2 else 'list')}[e[0]]
+
+
+def g_singleton0(rng):
+    """a singleton that is not a plain Python scalar: 0-d ndarray (has __iter__ and __len__, both raise TypeError) or NumPy scalar"""
+    return [rng.choice('ZZY'), pick_w(rng, [(g_int, 1), (g_dy, 1)])(rng)]
+def g_seq(rng, ln, flavor):
+    """a sequence that is not a list/tuple/ndarray: flavor in SEQ_FLAVORS"""
+    if flavor == 'range':
+        a = rng.randint(-2, 4); return eL([eI(a + i) for i in range(ln)], 'range')
+    return eL([g_scalar(rng) for _ in range(ln)], flavor)
 
 
 # ================================================================================================
@@ -724,8 +787,9 @@ def g_num_list(rng, n, flavor):
 class EnsureTP:
     def gen(self, rng, tier):
         T = rng.randint(0, 6)
-        kind = pick_w(rng, [('scalar', 3), ('list', 5), ('ndarray', 3), ('other-singleton', 1)])
+        kind = pick_w(rng, [('scalar', 3), ('list', 5), ('ndarray', 3), ('other-singleton', 1), ('singleton0', 1.5)])
         if kind == 'scalar': x = pick_w(rng, [(g_int, 1), (g_dy, 1)])(rng)
+        elif kind == 'singleton0': x = g_singleton0(rng)
         elif kind == 'other-singleton': x = rng.choice([eN(), eS('abc')])
         else: x = g_num_list(rng, max(0, T + pick_w(rng, [(0, 4), (1, 4), (-1, 1), (2, 1), (3, 0.5)])), kind)
         return dict(x=x, T=T, var_name=rng.choice([None, 'demand']))
@@ -733,12 +797,12 @@ class EnsureTP:
     def expr(self, c):
         x = c['x']
         if x[0] in 'NS': return None          # the Q-valued model of Alg/WW.v covers numeric scalars / lists
-        a = '(TPList %s)' % cqlist([fr(v) for v in x[1]]) if x[0] == 'L' else '(TPScalar %s)' % cq(fr(x))
+        a = '(TPList %s)' % cqlist([fr(v) for v in x[1]]) if x[0] == 'L' else '(TPScalar %s)' % cq(fr(x))      # 0-d ndarray / NumPy scalar: the number it holds
         return 'option_map (map qobs) (ensure_list_tp %s %s)' % (a, cnat(c['T']))
 
     def judge(self, chk, c, m):
         x = to_py(c['x']); b = copy.deepcopy(x); T = c['T']; e = nd_elems(c['x'])
-        chk.count('ensure_list_for_time_periods:%s' % ('singleton' if e[0] != 'L' else 'len=T%+d' % (len(e[1]) - T)))
+        chk.count('ensure_list_for_time_periods:%s' % ({'Z': 'singleton-0d-ndarray', 'Y': 'singleton-numpy-scalar'}.get(e[0], 'singleton') if e[0] != 'L' else 'len=T%+d' % (len(e[1]) - T)))
         r = call(H.ensure_list_for_time_periods, x, T, c['var_name']) if c['var_name'] else call(H.ensure_list_for_time_periods, x, T)
         if not same(x, b): chk.fail('ensure_list_for_time_periods|mutates-argument', 'x changed', c)
         # documented result
@@ -765,9 +829,11 @@ class EnsureTP:
 class EnsureListNodes:
     def gen(self, rng, tier):
         n = pick_w(rng, [(0, 1), (1, 2), (2, 3), (3, 3), (5, 1), (-1, 0.3)])
-        kind = pick_w(rng, [('none', 2), ('scalar', 3), ('list', 4), ('tuple', 1), ('ndarray', 2), ('dict', 1), ('nested', 1)])
+        kind = pick_w(rng, [('none', 2), ('scalar', 3), ('list', 4), ('tuple', 1), ('ndarray', 2), ('dict', 1), ('nested', 1), ('singleton0', 1.5), ('seq', 1.5)])
         ln = max(0, n + pick_w(rng, [(0, 5), (1, 2), (-1, 2), (2, 1)]))
         if kind == 'none': x = eN()
+        elif kind == 'singleton0': x = g_singleton0(rng)
+        elif kind == 'seq': x = g_seq(rng, ln, rng.choice(SEQ_FLAVORS))
         elif kind == 'scalar': x = g_scalar(rng, 0)
         elif kind == 'dict': x = g_dict(rng, ln, 'is', 0.1)
         elif kind == 'nested': x = eL([rng.choice([eL([g_int(rng)]), g_scalar(rng)]) for _ in range(ln)])
@@ -783,7 +849,7 @@ class EnsureListNodes:
         r = call(H.ensure_list_for_nodes, x, n, to_py(c['default'])) if c['default'] else call(H.ensure_list_for_nodes, x, n)
         if not same(x, b): chk.fail('ensure_list_for_nodes|mutates-argument', 'x changed', c)
         shape = 'None' if e[0] == 'N' else ('singleton' if e[0] not in 'LD' else '%s,len=n%+d' % ('dict' if e[0] == 'D' else 'list', len(e[1]) - n))
-        chk.count('ensure_list_for_nodes:%s' % shape)
+        chk.count('ensure_list_for_nodes:%s' % shape); chk.count('ensure_list_for_nodes:x-is-%s' % shape_name(c['x']))
         if n >= 0 and e[0] != 'D':
             if e[0] == 'N': want = ['L', [strip(c['default'] or eN())] * n]
             elif e[0] == 'L': want = strip(e) if len(e[1]) == n else None
@@ -824,9 +890,11 @@ class EnsureDictNodes:
     def gen(self, rng, tier):
         n = pick_w(rng, [(0, 1), (1, 2), (2, 3), (3, 3), (5, 1)])
         nodes = g_nodes(rng, n)
-        kind = pick_w(rng, [('none', 2), ('scalar', 3), ('list', 4), ('tuple', 1), ('ndarray', 2), ('dict', 2)])
+        kind = pick_w(rng, [('none', 2), ('scalar', 3), ('list', 4), ('tuple', 1), ('ndarray', 2), ('dict', 2), ('singleton0', 1.5), ('seq', 1.5)])
         ln = max(0, n + pick_w(rng, [(0, 5), (1, 2), (-1, 2), (2, 1)]))
         if kind == 'none': x = eN()
+        elif kind == 'singleton0': x = g_singleton0(rng)
+        elif kind == 'seq': x = g_seq(rng, ln, rng.choice(SEQ_FLAVORS))
         elif kind == 'scalar': x = g_scalar(rng, 0)
         elif kind == 'dict': x = g_dict(rng, ln, 'is', 0.1)
         elif kind == 'ndarray': x = g_num_list(rng, ln, 'ndarray')
@@ -842,7 +910,7 @@ class EnsureDictNodes:
         r = call(H.ensure_dict_for_nodes, x, nl, to_py(c['default'])) if c['default'] else call(H.ensure_dict_for_nodes, x, nl)
         if not (same(x, b) and same(nl, nb)): chk.fail('ensure_dict_for_nodes|mutates-argument', 'x or node_indices changed', c)
         shape = 'None' if e[0] == 'N' else ('dict' if e[0] == 'D' else ('singleton' if e[0] != 'L' else 'list,len=n%+d' % (len(e[1]) - n)))
-        chk.count('ensure_dict_for_nodes:%s' % shape)
+        chk.count('ensure_dict_for_nodes:%s' % shape); chk.count('ensure_dict_for_nodes:x-is-%s' % shape_name(c['x']))
         if e[0] == 'D': want = strip(e)
         elif e[0] == 'N': want = strip(dict_from_pairs([[k, c['default'] or eN()] for k in nodes]))
         elif e[0] == 'L': want = strip(dict_from_pairs(list(zip(nodes, e[1])))) if len(e[1]) == n else None
@@ -870,10 +938,14 @@ class BuildNodeData:
         attrs = rng.sample(ATTRS, rng.randint(0, 5))
         ad = []
         for a in attrs:
-            kind = pick_w(rng, [('none', 2), ('scalar', 3), ('list', 4), ('dict', 3), ('badlen', 0.6), ('tuple', 0.5)])
+            kind = pick_w(rng, [('none', 2), ('scalar', 3), ('list', 4), ('dict', 3), ('badlen', 0.6), ('tuple', 0.5), ('singleton0', 1), ('seq', 0.8), ('seqbad', 0.3)])
             if a in ('demand_list', 'probabilities'):
-                kind = pick_w(rng, [('none', 1), ('flat', 3), ('nestedlist', 3), ('dict', 1), ('nestedbad', 0.5)])
+                kind = pick_w(rng, [('none', 1), ('flat', 3), ('nestedlist', 3), ('dict', 1), ('nestedbad', 0.5), ('flat0', 0.8), ('singleton0', 0.3)])
             if kind == 'none': v = eN()
+            elif kind == 'singleton0': v = g_singleton0(rng)
+            elif kind in ('seq', 'seqbad'): v = g_seq(rng, n + (rng.choice([1, 2]) if kind == 'seqbad' else 0), rng.choice(SEQ_FLAVORS))
+            elif kind == 'flat0':       # a flat demand list whose entries are 0-d ndarrays / NumPy scalars (singletons): still "flat"
+                v = eL([rng.choice([g_singleton0(rng), g_int(rng, 0, 5)]) for _ in range(rng.choice([n, n + 1, 2]))]); v[1][:1] = [g_singleton0(rng)]
             elif kind == 'scalar': v = g_scalar(rng, 0)
             elif kind in ('list', 'tuple'): v = eL([g_scalar(rng) for _ in range(n)], kind)
             elif kind == 'badlen': v = eL([g_scalar(rng) for _ in range(n + rng.choice([1, 2]))])
@@ -917,6 +989,7 @@ class BuildNodeData:
         if not all(same(x, y) for x, y in zip((ad, nodes, dv), before)): chk.fail('build_node_data_dict|mutates-argument', 'an argument changed', c)
         want = self.documented(c)
         chk.count('build_node_data_dict:%s' % ('bad-length' if want is None else 'ok')); chk.count('build_node_data_dict:attrs=%d' % len(c['ad'][1]))
+        for _, v in c['ad'][1]: chk.count('build_node_data_dict:attr-is-%s' % shape_name(v))
         if want is None:
             if not (r[0] == 'err' and r[1] == 'ValueError'): chk.fail('build_node_data_dict|bad-length-accepted', 'documented ValueError, got %r' % (r[:2],), c)
         elif r[0] == 'err': chk.fail('build_node_data_dict|raises-%s' % r[1], r[2], c)
@@ -1261,18 +1334,125 @@ class CompareLists:
         chk.case(c, len(c['l1'][1]) >= 2)
 
 
+def g_shape(rng):
+    """one value of every shape the predicates and normalisers can meet, incl. those for which "has __iter__", "iter() works" and "is a list" disagree"""
+    k = pick_w(rng, [('any', 5), ('singleton0', 3), ('seq', 3), ('ndarray', 1.5), ('set', 1), ('frozenset', 0.5), ('iter', 1), ('gen', 0.7), ('class', 1.5), ('opaque', 1), ('dictof', 0.5)])
+    if k == 'any': return g_any(rng)
+    if k == 'singleton0': return g_singleton0(rng)
+    if k == 'seq': return g_seq(rng, rng.randint(0, 4), rng.choice(SEQ_FLAVORS))
+    if k == 'ndarray': return g_num_list(rng, rng.randint(0, 4), 'ndarray')
+    if k in ('set', 'frozenset'):
+        return eL([kk for kk, _ in g_dict(rng, rng.randint(0, 4), 'is', 0.1)[1]], k)      # pairwise different hashable atoms
+    if k in ('iter', 'gen'): return eL([g_scalar(rng) for _ in range(rng.randint(0, 3))], k)
+    if k == 'class': return ['T', rng.choice(sorted(CLASS_OBJECTS))]
+    if k == 'opaque': return ['O', rng.choice(['object', 'noiter'])]
+    return eD([[eS('a'), g_singleton0(rng)], [eS('b'), g_seq(rng, 2, 'legacy')]])
+
+
+def doc_is_iterable(e):
+    """documented: True for an iterable, False for a singleton (strings count as singletons). Iterable = a for loop can be started on it."""
+    return e[0] in 'LD'
+
+
+def py_is_iterable(x):
+    """the same, decided by the interpreter on a fresh object (cross-check of the encoding-based rule)"""
+    if isinstance(x, str): return False
+    try:
+        for _ in x: break
+    except TypeError:
+        return False
+    return True
+
+
+@helper('shape_predicates')
+class ShapePredicates:
+    """is_iterable / is_list / is_set / is_dict / is_numeric_string over every input shape"""
+    def gen(self, rng, tier):
+        which = pick_w(rng, [('is_iterable', 6), ('is_list', 1), ('is_set', 1), ('is_dict', 1), ('is_numeric_string', 1.5)])
+        if which == 'is_numeric_string':
+            x = pick_w(rng, [(eS(rng.choice(NUMSTR)), 3), (eS(rng.choice(NONNUM)), 3), (eS(rng.choice(OUTSIDE_GRAMMAR)), 1), (g_shape(rng), 2)])
+        else: x = g_shape(rng)
+        return dict(x=x, which=which)
+
+    def expr(self, c):
+        if c['which'] != 'is_iterable' or has_tag(c['x'], 'TOB'): return None
+        return 'is_iterable %s' % coq_pv(c['x'])
+
+    def judge(self, chk, c, m):
+        e = c['x']; nm = c['which']; x = to_py(e)
+        consumable = e[0] == 'L' and len(e) > 2 and e[2] in ('iter', 'gen')
+        b = None if consumable or e[0] in 'TO' else copy.deepcopy(x)
+        r = call(getattr(H, nm), x)
+        chk.count('%s:%s' % (nm, shape_name(e)))
+        if consumable:
+            if canon(list(x)) != strip(e): chk.fail(nm + '|consumes-iterator', 'the %s passed in has lost items after the call' % ('generator' if e[2] == 'gen' else 'iterator'), c)
+        elif b is not None and not same(x, b): chk.fail(nm + '|mutates-argument', 'x changed', c)
+        if nm == 'is_iterable':
+            want = doc_is_iterable(e)
+            if want is not py_is_iterable(to_py(e)): raise AssertionError('oracle inconsistency for %r' % (e,))
+        elif nm == 'is_list': want = e[0] == 'L' and (len(e) < 3 or e[2] == 'list')
+        elif nm == 'is_set': want = e[0] == 'L' and len(e) > 2 and e[2] == 'set'
+        elif nm == 'is_dict': want = e[0] == 'D'
+        else: want = e[0] == 'S' and e[1] in NUMSTR + OUTSIDE_GRAMMAR
+        if r[0] == 'err': chk.fail('%s|raises-%s|%s' % (nm, r[1], shape_name(e)), r[2], c)
+        elif r[1] is not want: chk.fail('%s|wrong-answer|%s' % (nm, shape_name(e)), '%s(%r) = %r, documented %r' % (nm, to_py(e), r[1], want), c)
+        if m is not NOMODEL:
+            chk.traces += 1
+            if not (r[0] == 'ok' and r[1] is m): chk.mismatch('%s: model %r vs %r' % (nm, m, r), c)
+        chk.case(c, True)
+
+
+@helper('check_iterable_sizes')
+class CheckIterableSizes:
+    """documented: True iff every item is an iterable of the same size or a singleton (as coded: an iterable of size 1 counts as a singleton)"""
+    def gen(self, rng, tier):
+        ln = rng.randint(0, 4); items = []
+        for _ in range(pick_w(rng, [(0, 0.5), (1, 1), (2, 3), (3, 4), (4, 2), (6, 1)])):
+            k = pick_w(rng, [('scalar', 3), ('singleton0', 2), ('list', 3), ('tuple', 1.5), ('ndarray', 1.5), ('seq', 2), ('set', 0.5), ('dict', 0.7)])
+            l = ln if rng.random() < 0.75 else pick_w(rng, [(0, 1), (1, 2), (ln + 1, 2), (max(0, ln - 1), 2), (rng.randint(0, 6), 1)])
+            if k == 'scalar': it = g_scalar(rng)
+            elif k == 'singleton0': it = g_singleton0(rng)
+            elif k == 'ndarray': it = g_num_list(rng, l, 'ndarray')
+            elif k == 'seq': it = g_seq(rng, l, rng.choice(SEQ_FLAVORS))
+            elif k == 'set': it = eL([eI(i) for i in rng.sample(range(10), l)], 'set')
+            elif k == 'dict': it = eD([[eI(i), g_scalar(rng)] for i in rng.sample(range(10), l)])
+            else: it = eL([g_scalar(rng) for _ in range(l)], k)
+            items.append(it)
+        return dict(items=eL(items, rng.choice(['list', 'list', 'tuple'])))
+
+    def expr(self, c): return None       # oracle only (no model)
+
+    def judge(self, chk, c, m):
+        items = c['items'][1]; x = to_py(c['items']); b = copy.deepcopy(x)
+        r = call(H.check_iterable_sizes, x)
+        if not same(x, b): chk.fail('check_iterable_sizes|mutates-argument', 'the list changed', c)
+        sizes = [len(nd_elems(e)[1]) for e in items if doc_is_iterable(e)]
+        for e in items: chk.count('check_iterable_sizes:item-is-%s' % shape_name(e))
+        if len(set(sizes)) <= 1: want = True
+        elif len(set(sizes) - {1}) >= 2: want = False
+        else: want = None        # the sizes differ only through iterables of size 1: the docstring and the code disagree; not judged
+        chk.count('check_iterable_sizes:%s' % {True: 'same-size', False: 'different-sizes', None: 'size-1-iterable-among-others(not judged)'}[want])
+        if r[0] == 'err': chk.fail('check_iterable_sizes|raises-%s' % r[1], r[2], c)
+        elif want is not None and r[1] is not want:
+            chk.fail('check_iterable_sizes|wrong-answer', 'got %r for item sizes %r (singletons left out), documented %r' % (r[1], sizes, want), c)
+        chk.case(c, len(sizes) >= 2 and want is not None)
+
+
 # ================================================================================================
 # driver
 
 RULE = ('per helper of stockpyl.helpers a structured generator (sizes 0..8, ties, empty/singleton containers, scalar/list/tuple/ndarray/dict/None shapes, '
         'admissible and inadmissible lengths, tolerance-boundary pairs for dict_match, numeric-string keys, None/str/number key kinds) plus malformed inputs; '
+        'the iterable/list/set/dict/numeric-string predicates, check_iterable_sizes and the node/time-period normalisers (incl. attribute values of build_node_data_dict) also get the shapes for which '
+        '"has __iter__", "iter() works" and "is a list" disagree: 0-d ndarrays and NumPy scalars (singletons), sequences with only __getitem__/__len__, range, deque, set/frozenset, '
+        'iterators and generators (must not be consumed), class objects and objects with __iter__ = None; '
         'numbers are ints or dyadic rationals so that the implementation computes exactly (FFT convolution, 1/m pmfs and the Irwin-Hall sum compared at 1e-12..1e-10 absolute). '
         'Every case: implementation vs Gallina model (Alg/Helpers.v, vm_compute), documented result recomputed independently in Python, argument deep-copied and compared after the call. '
         'non-trivial = the helper-specific interesting branch is exercised (>=2 arrays of length >=2, ties or >=3 entries for find_nearest, differing non-empty dicts for dict_match, admissible list shapes, >=3 comparable keys for the sorters ...); '
         'distinct = distinct (helper, input).')
 
 WEIGHTS = {'convolve_many': 1.4, 'find_nearest': 1.6, 'dict_match': 1.8, 'irwin_hall': 1.0, 'sum_of_discrete_uniforms_pmf': 0.6, 'sum_of_discretes_distribution': 0.4,
-           'is_integer': 0.6, 'min_of_dict': 0.5, 'nearest_dict_value': 0.5}
+           'is_integer': 0.6, 'min_of_dict': 0.5, 'nearest_dict_value': 0.5, 'shape_predicates': 1.5}
 
 
 def explore(chk, per_helper, do_model=True, only=None):
